@@ -1,7 +1,7 @@
 """helpers shared by the property modules"""
 import os, sys, random
 from fractions import Fraction as F
-from framework import Prop, Item, Run
+from framework import Prop, Item, Run, ENTRIES
 import gens, svgtree
 
 SCALES = ['1/2', '1', '3', '8', '10', '20', '75/2']
